@@ -33,7 +33,7 @@ for p in props:
             'technique': 'bounded symbolic execution of rustc MIR with an SMT solver (z3), native replay of counterexamples',
         })
     else:
-        na.append({'property_id': pid, 'reason': NOT_YET[pid]})
+        na.append({'property_id': pid, 'reason': NOT_YET.get(pid, 'no check built')})
 
 man = {
     'version': 1,
